@@ -21,6 +21,79 @@ def body_lines(text):
     return lines[:k], (lines[k] if k < len(lines) else None), lines[k + 1:]
 
 
+def make_request(header, specs, typed, sort):
+    """The writer.run request that offers `specs` (tumor, normal, chromosome, start, length), in that order."""
+    ops = []
+    texts = []
+    for t, nn, c, s, d in specs:
+        if typed:
+            line = str(SC.typed_record(None, t, nn or None, c, s, s + d))
+            ops.append({"k": "write", "rec": {"parse": {"line": line, "scheme": "gdc-1.0.0"}}})
+        else:
+            line = "\t".join(["G", c, str(s), str(s + d), t, nn])
+            ops.append({"k": "write", "rec": {"parse": {"line": line, "names": UNTYPED}}})
+        texts += line.split("\t")
+    ops.append({"k": "close"})
+    mode = "Strict" if typed else "Silent"
+    return {"op": "writer.run", "header_lines": header, "mode": mode, "assume_sorted": not sort, "ops": ops,
+            "floats": float_table(texts)}
+
+
+def eval_write(r, specs, order, contigs, typed, sort):
+    """Run one writer session on the implementation and apply the oracle (shared by run and replay_case).
+
+    Returns (implementation's answer, where, failures, body lines or None when the oracle stopped early)."""
+    i = impl.run(r)
+    where = {"header": r["header_lines"], "records": [list(sp) for sp in specs], "sorting": sort, "typed": typed,
+             "order": order, "contigs": contigs}
+    fails = []
+    if "init_exc" in i or any(s["exc"] for s in i["steps"]):
+        fails.append(dict(where, what="writing well-formed records failed", kind="write-failed",
+                          got=i.get("init_exc") or [s["exc"] for s in i["steps"]]))
+        return i, where, fails, None
+    text = i["steps"][-1]["out"]
+    hdr, col, body = body_lines(text)
+    if hdr != r["header_lines"] or (col is None and (typed or specs)):
+        fails.append(dict(where, what="the file does not start with the header and the column line", kind="header"))
+        return i, where, fails, None
+    wrote = [ln for ln in (o["rec"]["parse"]["line"] for o in r["ops"] if o["k"] == "write")]
+    if sorted(body) != sorted(wrote):
+        fails.append(dict(where, what="the file does not hold every record exactly once", kind="not-permutation",
+                          wrote=len(wrote), found=len(body)))
+        return i, where, fails, None
+    if not sort:
+        if body != wrote:
+            fails.append(dict(where, what="with sorting off the records are not in the order they were written", kind="order-changed"))
+    else:
+        locs = [{"tumor": f[4] if not typed else None, "normal": f[5] if not typed else None, "chr": f[1], "start": f[2], "stop": f[3]} for f in (b.split("\t") for b in body)] if not typed else None
+        if typed:
+            names = impl.scheme_by_annotation("gdc-1.0.0").column_names()
+            ix = {n: names.index(n) for n in ("Tumor_Sample_Barcode", "Matched_Norm_Sample_Barcode", "Chromosome", "Start_Position", "End_Position")}
+            locs = []
+            for b in body:
+                f = b.split("\t")
+                locs.append({"tumor": f[ix["Tumor_Sample_Barcode"]], "normal": f[ix["Matched_Norm_Sample_Barcode"]] or None,
+                             "chr": f[ix["Chromosome"]], "start": f[ix["Start_Position"]], "stop": f[ix["End_Position"]]})
+        bad = [j for j in range(len(locs) - 1) if expected_cmp(locs[j], locs[j + 1], order, contigs) > 0]
+        if bad:
+            fails.append(dict(where, what="the file is not in the order declared by its own sort.order / contigs pragmas",
+                              kind="not-sorted", at=bad[0], body=[b.split("\t")[:6] for b in body][:6] if not typed else locs[:6]))
+    # the library's own reader iterates the file to the end
+    rd = impl.run({"op": "reader.run", "lines": text.split("\n")[:-1] if text.endswith("\n") else text.split("\n"), "mode": r["mode"]})
+    if sort and (rd.get("init_exc") or rd.get("iter_exc") or len(rd.get("records", [])) != len(wrote)):
+        fails.append(dict(where, what="the library's reader does not iterate the produced file to the end", kind="own-reader-rejects",
+                          got=rd.get("init_exc") or rd.get("iter_exc") or len(rd.get("records", []))))
+    return i, where, fails, body
+
+
+def model_differs(r, specs, m, i):
+    k = next((j for j, (a, b) in enumerate(zip(m.get("steps", []), i.get("steps", []))) if a != b), None)
+    return {"op": "writer.run", "header": r["header_lines"], "assume_sorted": r["assume_sorted"],
+            "records": specs, "step": k,
+            "model": None if k is None else {"exc": m["steps"][k]["exc"], "lines": m["steps"][k]["out"].split("\n")[-6:]},
+            "impl": None if k is None else {"exc": i["steps"][k]["exc"], "lines": i["steps"][k]["out"].split("\n")[-6:]}}
+
+
 def run(ctx):
     out = Outcome()
     out.rule = ("headers with both sortable orders, contig list absent / lexical / karyotypic (chr1,chr2,...,chr10) / reversed, typed (gdc-1.0.0) and scheme-less records; "
@@ -47,72 +120,20 @@ def run(ctx):
             header.append("#sort.order " + order)
             if contigs and not any(h.startswith("#contigs") for h in header):
                 header.append("#contigs " + ",".join(contigs))
-            ops = []
-            texts = []
-            for k in perm:
-                t, nn, c, s, d = specs[k]
-                if typed:
-                    line = str(SC.typed_record(rng, t, nn or None, c, s, s + d))
-                    ops.append({"k": "write", "rec": {"parse": {"line": line, "scheme": "gdc-1.0.0"}}})
-                else:
-                    line = "\t".join(["G", c, str(s), str(s + d), t, nn])
-                    ops.append({"k": "write", "rec": {"parse": {"line": line, "names": UNTYPED}}})
-                texts += line.split("\t")
-            ops.append({"k": "close"})
-            mode = "Strict" if typed else "Silent"
-            reqs.append({"op": "writer.run", "header_lines": header, "mode": mode, "assume_sorted": not sort, "ops": ops,
-                         "floats": float_table(texts)})
+            reqs.append(make_request(header, [specs[k] for k in perm], typed, sort))
             meta.append(([specs[k] for k in perm], order, contigs or [], typed, sort))
     big_file_case(ctx, out, rng)
     mo = ctx.driver.run(reqs)
     for r, m, (specs, order, contigs, typed, sort) in zip(reqs, mo, meta):
         out.evaluations += 1
-        i = impl.run(r)
+        i, where, fails, body = eval_write(r, specs, order, contigs, typed, sort)
         if has_unmodelled(m):
             out.unmodelled += 1
         elif m != i:
-            k = next((j for j, (a, b) in enumerate(zip(m.get("steps", []), i.get("steps", []))) if a != b), None)
-            out.disagreements.append({"op": "writer.run", "header": r["header_lines"], "assume_sorted": r["assume_sorted"],
-                                      "records": specs, "step": k,
-                                      "model": None if k is None else {"exc": m["steps"][k]["exc"], "lines": m["steps"][k]["out"].split("\n")[-6:]},
-                                      "impl": None if k is None else {"exc": i["steps"][k]["exc"], "lines": i["steps"][k]["out"].split("\n")[-6:]}})
-        where = {"header": r["header_lines"], "records": specs, "sorting": sort, "typed": typed}
-        if "init_exc" in i or any(s["exc"] for s in i["steps"]):
-            out.failures.append(dict(where, what="writing well-formed records failed", kind="write-failed",
-                                     got=i.get("init_exc") or [s["exc"] for s in i["steps"]]))
+            out.disagreements.append(model_differs(r, specs, m, i))
+        out.failures += fails
+        if body is None:
             continue
-        text = i["steps"][-1]["out"]
-        hdr, col, body = body_lines(text)
-        if hdr != r["header_lines"] or (col is None and (typed or specs)):
-            out.failures.append(dict(where, what="the file does not start with the header and the column line", kind="header"))
-            continue
-        wrote = [ln for ln in (o["rec"]["parse"]["line"] for o in r["ops"] if o["k"] == "write")]
-        if sorted(body) != sorted(wrote):
-            out.failures.append(dict(where, what="the file does not hold every record exactly once", kind="not-permutation",
-                                     wrote=len(wrote), found=len(body)))
-            continue
-        if not sort:
-            if body != wrote:
-                out.failures.append(dict(where, what="with sorting off the records are not in the order they were written", kind="order-changed"))
-        else:
-            locs = [{"tumor": f[4] if not typed else None, "normal": f[5] if not typed else None, "chr": f[1], "start": f[2], "stop": f[3]} for f in (b.split("\t") for b in body)] if not typed else None
-            if typed:
-                names = impl.scheme_by_annotation("gdc-1.0.0").column_names()
-                ix = {n: names.index(n) for n in ("Tumor_Sample_Barcode", "Matched_Norm_Sample_Barcode", "Chromosome", "Start_Position", "End_Position")}
-                locs = []
-                for b in body:
-                    f = b.split("\t")
-                    locs.append({"tumor": f[ix["Tumor_Sample_Barcode"]], "normal": f[ix["Matched_Norm_Sample_Barcode"]] or None,
-                                 "chr": f[ix["Chromosome"]], "start": f[ix["Start_Position"]], "stop": f[ix["End_Position"]]})
-            bad = [j for j in range(len(locs) - 1) if expected_cmp(locs[j], locs[j + 1], order, contigs) > 0]
-            if bad:
-                out.failures.append(dict(where, what="the file is not in the order declared by its own sort.order / contigs pragmas",
-                                         kind="not-sorted", at=bad[0], body=[b.split("\t")[:6] for b in body][:6] if not typed else locs[:6]))
-        # the library's own reader iterates the file to the end
-        rd = impl.run({"op": "reader.run", "lines": text.split("\n")[:-1] if text.endswith("\n") else text.split("\n"), "mode": r["mode"]})
-        if sort and (rd.get("init_exc") or rd.get("iter_exc") or len(rd.get("records", [])) != len(wrote)):
-            out.failures.append(dict(where, what="the library's reader does not iterate the produced file to the end", kind="own-reader-rejects",
-                                     got=rd.get("init_exc") or rd.get("iter_exc") or len(rd.get("records", []))))
         if sort and len(specs) >= 2:
             out.nontrivial.add(repr((r["header_lines"], specs)))
         if len(out.samples) < 3 and sort and len(specs) >= 3:
@@ -120,34 +141,128 @@ def run(ctx):
     return out
 
 
-def big_file_case(ctx, out, rng):
-    """More records than the writer keeps in memory (10000): several spilled runs with interleaving key ranges are merged at close()."""
+BIG_HEADER = ["#version gdc-1.0.0", "#annotation.spec lab", "#sort.order Coordinate"]
+BIG_MULT, BIG_MOD = 7919, 10007
+
+
+def big_starts(n, mult=BIG_MULT, mod=BIG_MOD):
+    """The insertion order of the big-file case: a deterministic interleaving of 0..n-1 (consecutive records fall into
+    different residue classes, so the spilled runs overlap)."""
+    starts = list(range(n))
+    starts.sort(key=lambda s: ((s * mult) % mod, s))
+    return starts
+
+
+def eval_big(n, mult=BIG_MULT, mod=BIG_MOD):
+    """More records than the writer keeps in memory (10000): several spilled runs with interleaving key ranges are merged at close().
+    Shared by run and replay_case; returns (start positions of the body, failures)."""
     from maflib.header import MafHeader
     from maflib.record import MafRecord
     from maflib.validation import ValidationStringency as VS
     from maflib.writer import MafWriter
-    n = 20000 + rng.randrange(600, 5000)
-    header = ["#version gdc-1.0.0", "#annotation.spec lab", "#sort.order Coordinate"]
     buf = impl.RecordingHandle()
-    w = MafWriter.from_fd(buf, MafHeader.from_lines(header, validation_stringency=VS.Silent), validation_stringency=VS.Silent, assume_sorted=False)
-    starts = list(range(n))
-    # a deterministic interleaving: consecutive records fall into different residue classes, so the runs overlap
-    starts.sort(key=lambda s: ((s * 7919) % 10007, s))
-    out.evaluations += 1
-    for s0 in starts:
+    w = MafWriter.from_fd(buf, MafHeader.from_lines(BIG_HEADER, validation_stringency=VS.Silent), validation_stringency=VS.Silent, assume_sorted=False)
+    for s0 in big_starts(n, mult, mod):
         w += MafRecord.from_line("G\tchr1\t%d\t%d" % (s0, s0), column_names=["Hugo_Symbol", "Chromosome", "Start_Position", "End_Position"],
                                  validation_stringency=VS.Silent)
     w.close()
     body = [l for l in buf.text().split("\n")[4:] if l]
     got = [int(l.split("\t")[2]) for l in body]
+    # what rebuilds the input: records G/chr1/s/s for s in 0..n-1, added in the order sorted by ((s*mult) % mod, s)
+    case = {"case": "big-file", "n": n, "interleave": {"mult": mult, "mod": mod}}
+    fails = []
     if sorted(got) != list(range(n)):
-        out.failures.append({"what": "a %d-record sorting write lost or duplicated records" % n, "kind": "not-permutation", "n": n})
+        fails.append(dict(case, what="a %d-record sorting write lost or duplicated records" % n, kind="not-permutation"))
     elif got != sorted(got):
         k = next(i for i in range(len(got) - 1) if got[i] > got[i + 1])
-        out.failures.append({"what": "a %d-record sorting write (3+ spilled runs) is out of order at body line %d" % (n, k + 1), "kind": "not-sorted",
-                             "n": n, "around": got[k - 1:k + 3]})
+        fails.append(dict(case, what="a %d-record sorting write (3+ spilled runs) is out of order at body line %d" % (n, k + 1), kind="not-sorted",
+                          around=got[k - 1:k + 3]))
+    return got, fails
+
+
+def big_file_case(ctx, out, rng):
+    n = 20000 + rng.randrange(600, 5000)
+    out.evaluations += 1
+    got, fails = eval_big(n)
+    out.failures += fails
     out.nontrivial.add(("big", n))
     out.distribution["big_file_records"] += n
+
+
+def header_decl(header):
+    """(sort order, contig list) declared by header lines."""
+    order, contigs = None, []
+    for h in header:
+        if h.startswith("#sort.order "):
+            order = h.split(" ", 1)[1]
+        elif h.startswith("#contigs "):
+            contigs = [c for c in h.split(" ", 1)[1].split(",") if c]
+    return order, contigs
+
+
+def replay_case(ctx, failure):
+    """Re-evaluate the stored failing input on the current implementation; return the list of failure dicts it
+    produces now (empty list = the property holds on that input)."""
+    if failure.get("case") == "big-file" or ("n" in failure and "header" not in failure):
+        n = int(failure["n"])
+        il = failure.get("interleave") or {}
+        mult, mod = il.get("mult", BIG_MULT), il.get("mod", BIG_MOD)
+        print("sorting writer (Silent, header %s): %d scheme-less records G/chr1/s/s, s in 0..%d, added in the order sorted by ((s*%d) %% %d, s); close()" % (
+            BIG_HEADER, n, n - 1, mult, mod))
+        try:
+            got, fails = eval_big(n, mult, mod)
+        except Exception as e:  # noqa
+            print("implementation: raised %s" % exc_name(e))
+            return [{"case": "big-file", "n": n, "interleave": {"mult": mult, "mod": mod}, "kind": "write-failed",
+                     "what": "a %d-record sorting write failed with %s" % (n, exc_name(e))}]
+        k = next((j for j in range(len(got) - 1) if got[j] > got[j + 1]), None)
+        print("implementation: %d body lines, %s" % (len(got), "in non-decreasing start order" if k is None else
+                                                     "first descent at body line %d: starts %s" % (k + 1, got[max(0, k - 1):k + 3])))
+        print("model: the %d-record case is not run on the model (multi-run merging is C07's subject)" % n)
+        for f in fails:
+            print("oracle fails: %s" % f["what"])
+        return fails
+    if any(k not in failure for k in ("header", "records", "sorting", "typed")):
+        return None
+    header, typed, sort = list(failure["header"]), failure["typed"], failure["sorting"]
+    specs = [tuple(sp) for sp in failure["records"]]
+    order, contigs = header_decl(header)
+    order = failure.get("order", order)
+    contigs = list(failure["contigs"]) if failure.get("contigs") is not None else contigs
+    r = make_request(header, specs, typed, sort)
+    print("%s writer (%s, %s records), header %s" % ("sorting" if sort else "direct", r["mode"], "gdc-1.0.0" if typed else "scheme-less", header))
+    for sp in specs:
+        print("    write tumor=%r normal=%r chr=%r start=%r end=%r" % (sp[0], sp[1], sp[2], sp[3], sp[3] + sp[4]))
+    print("    close")
+    i, where, fails, body = eval_write(r, specs, order, contigs, typed, sort)
+
+    def show(who, a):
+        if "init_exc" in a:
+            print("%s: opening the writer failed with %s" % (who, a["init_exc"]))
+            return
+        excs = [s["exc"] for s in a["steps"]]
+        if any(excs):
+            print("%s: step results %s" % (who, excs))
+        hdr, col, bd = body_lines(a["steps"][-1]["out"] if a["steps"] else a["init_out"])
+        names = (col or "").split("\t")
+        want = ["Tumor_Sample_Barcode", "Matched_Norm_Sample_Barcode", "Chromosome", "Start_Position", "End_Position"]
+        if all(n in names for n in want):
+            bd = [[b.split("\t")[names.index(n)] for n in want] for b in bd if len(b.split("\t")) == len(names)]
+        print("%s: file has %d header lines, %s, body (tumor, normal, chr, start, end): %s" % (who, len(hdr), "a column line" if col is not None else "no column line", bd))
+    show("implementation", i)
+    try:
+        m = ctx.driver.run([r])[0]
+        if has_unmodelled(m):
+            print("model: outside the model's domain")
+        else:
+            show("model", m)
+            if m != i:
+                print("model: differs from the implementation at step %s" % model_differs(r, specs, m, i)["step"])
+    except Exception as e:  # noqa
+        print("model: not available (%s)" % str(e)[:200])
+    for f in fails:
+        print("oracle fails: %s" % f["what"])
+    return fails
 
 
 def search(ctx):
